@@ -1,13 +1,174 @@
-//! c07: bounded stand-in (E3) -- see DESIGN.md section 5
-#![allow(dead_code, unused_imports)]
+//! C07: incremental updates -- latest revision wins, history preserved (bounded histories through the real loader).
+#![allow(dead_code)]
 use crate::common::*;
 use crate::gen::*;
+use lopdf::{Document, IncrementalDocument, Object};
 use serde_json::{json, Value};
+use std::collections::BTreeMap;
 
-pub fn run(_thorough: bool) -> Report {
-    Report::new("not built yet", false)
+/// minimal independent serializer for the value alphabet used here
+fn ser(o: &Object, out: &mut Vec<u8>) {
+    match o {
+        Object::Null => out.extend_from_slice(b"null"),
+        Object::Boolean(b) => out.extend_from_slice(if *b { b"true" } else { b"false" }),
+        Object::Integer(i) => out.extend_from_slice(i.to_string().as_bytes()),
+        Object::Name(n) => { out.push(b'/'); out.extend_from_slice(n); }
+        Object::String(s, _) => { out.push(b'<'); for b in s { out.extend_from_slice(format!("{:02x}", b).as_bytes()); } out.push(b'>'); }
+        Object::Array(a) => { out.push(b'['); for (i, x) in a.iter().enumerate() { if i > 0 { out.push(b' '); } ser(x, out); } out.push(b']'); }
+        Object::Dictionary(d) => { out.extend_from_slice(b"<<"); for (k, v) in d.iter() { out.push(b'/'); out.extend_from_slice(k); out.push(b' '); ser(v, out); out.push(b' '); } out.extend_from_slice(b">>"); }
+        Object::Reference(id) => out.extend_from_slice(format!("{} {} R", id.0, id.1).as_bytes()),
+        Object::Stream(s) => { let mut d = s.dict.clone(); d.set("Length", s.content.len() as i64); ser(&Object::Dictionary(d), out); out.extend_from_slice(b"\nstream\n"); out.extend_from_slice(&s.content); out.extend_from_slice(b"\nendstream"); }
+        Object::Real(r) => out.extend_from_slice(format!("{:.3}", r).as_bytes()),
+    }
 }
 
-pub fn replay(_v: &Value) -> Result<(), String> {
-    Err("no replay".into())
+#[derive(Clone, Copy, Debug, PartialEq)]
+pub enum Style { Table, XStream, ObjStm }
+
+/// append one revision to `file`; `objs` = new or replaced objects; returns the new startxref
+fn append_revision(file: &mut Vec<u8>, objs: &[(u32, Object)], size: u32, root: u32, prev: usize, style: Style) -> usize {
+    if !file.ends_with(b"\n") { file.push(b'\n'); }
+    let mut offsets: BTreeMap<u32, (u8, u64, u64)> = BTreeMap::new(); // id -> (type, f2, f3)
+    match style {
+        Style::Table | Style::XStream => {
+            for (id, o) in objs {
+                offsets.insert(*id, (1, file.len() as u64, 0));
+                file.extend_from_slice(format!("{} 0 obj\n", id).as_bytes());
+                ser(o, file);
+                file.extend_from_slice(b"\nendobj\n");
+            }
+        }
+        Style::ObjStm => {
+            let container = size; // fresh id
+            let mut index = Vec::new();
+            let mut body = Vec::new();
+            for (k, (id, o)) in objs.iter().enumerate() {
+                index.extend_from_slice(format!("{} {} ", id, body.len()).as_bytes());
+                ser(o, &mut body);
+                body.push(b'\n');
+                offsets.insert(*id, (2, container as u64, k as u64));
+            }
+            let mut content = index.clone();
+            content.extend_from_slice(&body);
+            offsets.insert(container, (1, file.len() as u64, 0));
+            file.extend_from_slice(format!("{} 0 obj\n<</Type /ObjStm /N {} /First {} /Length {}>>\nstream\n", container, objs.len(), index.len(), content.len()).as_bytes());
+            file.extend_from_slice(&content);
+            file.extend_from_slice(b"\nendstream\nendobj\n");
+        }
+    }
+    let xref_pos = file.len();
+    match style {
+        Style::Table => {
+            file.extend_from_slice(b"xref\n");
+            for (id, (_, off, _)) in &offsets { file.extend_from_slice(format!("{} 1\n{:010} {:05} n \n", id, off, 0).as_bytes()); }
+            file.extend_from_slice(format!("trailer\n<</Size {} /Root {} 0 R /Prev {}>>\n", size + 1, root, prev).as_bytes());
+        }
+        Style::XStream | Style::ObjStm => {
+            let xid = size + if style == Style::ObjStm { 1 } else { 0 };
+            offsets.insert(xid, (1, xref_pos as u64, 0));
+            let mut rows = Vec::new();
+            let mut index = String::new();
+            for (id, (t, a, b)) in &offsets { index.push_str(&format!("{} 1 ", id)); rows.push(*t); rows.extend_from_slice(&(*a as u32).to_be_bytes()); rows.extend_from_slice(&(*b as u16).to_be_bytes()); }
+            file.extend_from_slice(format!("{} 0 obj\n<</Type /XRef /Size {} /Root {} 0 R /Prev {} /W [1 4 2] /Index [{}] /Length {}>>\nstream\n", xid, xid + 1, root, prev, index.trim(), rows.len()).as_bytes());
+            file.extend_from_slice(&rows);
+            file.extend_from_slice(b"\nendstream\nendobj\n");
+        }
+    }
+    file.extend_from_slice(format!("startxref\n{}\n%%EOF", xref_pos).as_bytes());
+    xref_pos
+}
+
+fn base_doc(n: u32) -> (Document, BTreeMap<u32, Object>) {
+    let mut model = BTreeMap::new();
+    let mut d = Document::with_version("1.5");
+    for id in 1..=n {
+        let o = if id == 1 { Object::Dictionary(dict(vec![(b"Type", name(b"Catalog")), (b"V", Object::Integer(0))])) } else { Object::Array(vec![Object::Integer(id as i64), name(b"rev0")]) };
+        d.objects.insert((id, 0), o.clone());
+        model.insert(id, o);
+    }
+    d.max_id = n;
+    d.trailer.set("Root", Object::Reference((1, 0)));
+    (d, model)
+}
+
+fn updates() -> Vec<Vec<(u32, u8)>> {
+    // (object number, payload tag); numbers above the base are additions
+    vec![vec![(2, 1)], vec![(3, 1), (2, 1)], vec![(40, 1)], vec![(2, 1), (41, 1), (42, 1)], vec![(1, 1)], vec![(3, 1)]]
+}
+fn payload(id: u32, rev: usize, tag: u8) -> Object {
+    if id == 1 { Object::Dictionary(dict(vec![(b"Type", name(b"Catalog")), (b"V", Object::Integer(rev as i64))])) }
+    else { Object::Array(vec![Object::Integer(id as i64), Object::Name(format!("rev{}t{}", rev, tag).into_bytes())]) }
+}
+
+fn check_model(file: &[u8], model: &BTreeMap<u32, Object>, what: &str) -> Result<Document, (String, String)> {
+    let doc = match guarded(|| Document::load_mem(file)) { Ok(Ok(d)) => d, Ok(Err(e)) => return Err(("loads".into(), format!("{}: load failed: {}", what, e))), Err(p) => return Err(("loads".into(), format!("{}: load panicked: {}", what, p))) };
+    for (id, want) in model {
+        match doc.objects.get(&(*id, 0)) {
+            None => { if std::env::var("C07_DUMP").is_ok() { let _ = std::fs::write("/tmp/c07_dump.pdf", file); } return Err(("latest-wins".into(), format!("{}: object {} is missing", what, id))) },
+            Some(got) => if !obj_eq(want, got) { return Err(("latest-wins".into(), format!("{}: object {} should be {:?} (most recent revision), loaded {:?}", what, id, want, got))); }
+        }
+    }
+    Ok(doc)
+}
+
+pub fn check_history(base_stream: bool, base_n: u32, style: Style, seq: &[usize], via_lopdf: bool) -> Result<(), (String, String)> {
+    let (mut d, mut model) = base_doc(base_n);
+    d.reference_table.cross_reference_type = if base_stream { lopdf::xref::XrefType::CrossReferenceStream } else { lopdf::xref::XrefType::CrossReferenceTable };
+    let mut file = vec![];
+    d.save_to(&mut file).map_err(|e| ("base-save".to_string(), e.to_string()))?;
+    let ups = updates();
+    let mut prev_doc = check_model(&file, &model, "base")?;
+    for (rev, u) in seq.iter().enumerate() {
+        let up = &ups[*u];
+        let objs: Vec<(u32, Object)> = up.iter().map(|(id, t)| (*id, payload(*id, rev + 1, *t))).collect();
+        for (id, o) in &objs { model.insert(*id, o.clone()); }
+        if via_lopdf {
+            let before = file.clone();
+            let prev_view = format!("{:?}", prev_doc.objects);
+            let mut inc = IncrementalDocument::create_from(file.clone(), prev_doc.clone());
+            for (id, o) in &objs { inc.new_document.objects.insert((*id, 0), o.clone()); inc.new_document.max_id = inc.new_document.max_id.max(*id); }
+            let mut out = vec![];
+            match guarded(std::panic::AssertUnwindSafe(|| inc.save_to(&mut out))) { Ok(Ok(())) => {}, other => return Err(("incremental-save".into(), format!("{:?}", other.map(|r| r.map_err(|e| e.to_string()))))) }
+            if !out.starts_with(&before) { return Err(("prefix-preserved".into(), format!("revision {}: the previously loaded bytes are not an unchanged prefix", rev + 1))); }
+            if format!("{:?}", inc.get_prev_documents().objects) != prev_view { return Err(("previous-view-unmodified".into(), "saving changed the view of the previous revisions".into())); }
+            // only new or replaced objects are appended
+            let tail = &out[before.len()..];
+            for (id, _) in model.iter() { if !up.iter().any(|(u, _)| u == id) { let pat = format!("\n{} 0 obj", id); if tail.windows(pat.len()).any(|w| w == pat.as_bytes()) { return Err(("only-new-objects".into(), format!("untouched object {} was written again", id))); } } }
+            file = out;
+        } else {
+            // fresh numbers for the container / xref stream: above every number used so far (50 + 2 per revision)
+            let size = 50 + 2 * rev as u32;
+            let prev = prev_doc.xref_start;
+            append_revision(&mut file, &objs, size, 1, prev, style);
+        }
+        prev_doc = check_model(&file, &model, &format!("after revision {}", rev + 1))?;
+    }
+    Ok(())
+}
+
+pub fn run(thorough: bool) -> Report {
+    let mut rep = Report::new("base documents of 3 objects (table / xref-stream) x histories of 1..2 (thorough: 3) revisions over 6 update sets x {reference writer: table, xref stream, object stream; lopdf IncrementalDocument}; reload after every revision", true);
+    let maxlen = if thorough { 3 } else { 2 };
+    let mut seqs: Vec<Vec<usize>> = vec![];
+    for a in 0..6 { seqs.push(vec![a]); for b in 0..6 { seqs.push(vec![a, b]); if maxlen >= 3 { for c in 0..6 { seqs.push(vec![a, b, c]); } } } }
+    for base_stream in [false, true] {
+        for seq in &seqs {
+            for (style, via) in [(Style::Table, false), (Style::XStream, false), (Style::ObjStm, false), (Style::Table, true)] {
+                if !via && style == Style::Table && base_stream { continue; }     // a table revision on top of an xref-stream file would be a hybrid file (outside the domain)
+                if !via && style != Style::Table && !base_stream { continue; }
+                rep.case(true);
+                if let Err((o, d)) = check_history(base_stream, 3, style, seq, via) {
+                    rep.fail(&o, d.clone(), json!({"base_stream": base_stream, "style": format!("{:?}", style), "seq": seq, "via_lopdf": via}), d);
+                }
+            }
+        }
+    }
+    rep.sample("base(table,3 objects) ; rev1 replaces 2 ; rev2 replaces 3,2".into());
+    rep
+}
+
+pub fn replay(v: &Value) -> Result<(), String> {
+    let style = match v["style"].as_str() { Some("XStream") => Style::XStream, Some("ObjStm") => Style::ObjStm, _ => Style::Table };
+    let seq: Vec<usize> = v["seq"].as_array().cloned().unwrap_or_default().iter().map(|x| x.as_u64().unwrap_or(0) as usize).collect();
+    check_history(v["base_stream"].as_bool().unwrap_or(false), 3, style, &seq, v["via_lopdf"].as_bool().unwrap_or(false)).map_err(|e| format!("{}: {}", e.0, e.1))
 }
